@@ -154,9 +154,31 @@ impl Prop for C04Prop {
     }
 
     fn directed(&self, tier: Tier) -> Vec<Scenario> {
+        enum_corpus("C04", tier, 1)
+    }
+
+    fn gen(&self, rng: &mut Rng, tier: Tier) -> Scenario {
+        Scenario::File(smlgen::gen_file_scn(rng, tier, "C04", &Emphasis::balanced()))
+    }
+
+    fn exec(&self, scn: &Scenario, st: &mut Stats) -> Outcome {
+        file_exec(scn, st, &|r, x, _f, st| {
+            if r.complete.is_err() || r.stream_panic.is_some() {
+                st.bump("probe", "panic-left-to-C06");
+            }
+            check_soundness(r, x)
+        })
+    }
+}
+
+/// the enumeration corpus shared by the FILE-engine properties: every truncation, every
+/// (quick: every third) single-bit flip without re-seal, and every such flip inside a message
+/// body with the CRC re-sealed, over a small base set
+pub fn enum_corpus(prop: &str, tier: Tier, extra_polls: usize) -> Vec<Scenario> {
+    {
         let mut v = Vec::new();
         for (bi, msgs) in base_set().into_iter().enumerate() {
-            let base = FileScn { prop: "C04".into(), sub: "valid".into(), msgs: msgs.clone(), post: vec![], extra_polls: 1, notes: vec![format!("base:{}", bi)] };
+            let base = FileScn { prop: prop.into(), sub: "valid".into(), msgs: msgs.clone(), post: vec![], extra_polls, notes: vec![format!("base:{}", bi)] };
             let total = base.bytes().len();
             v.push(Scenario::File(base.clone()));
             // every truncation
@@ -190,18 +212,5 @@ impl Prop for C04Prop {
             }
         }
         v
-    }
-
-    fn gen(&self, rng: &mut Rng, tier: Tier) -> Scenario {
-        Scenario::File(smlgen::gen_file_scn(rng, tier, "C04", &Emphasis::balanced()))
-    }
-
-    fn exec(&self, scn: &Scenario, st: &mut Stats) -> Outcome {
-        file_exec(scn, st, &|r, x, _f, st| {
-            if r.complete.is_err() || r.stream_panic.is_some() {
-                st.bump("probe", "panic-left-to-C06");
-            }
-            check_soundness(r, x)
-        })
     }
 }
